@@ -51,9 +51,12 @@ class Ctx:
         self.replay_filter = replay
         self._known = [k for k in load_known().get("findings", []) if k.get("property") == prop]
         self.configs = []
+        self.config_override = os.environ.get("VERIF_CONFIG") or None
+        self.thorough = {}
 
     # facts -----------------------------------------------------------------
     def facts(self, config="prod"):
+        config = self.config_override or config
         F = facts.load(config)
         if config not in self.configs:
             self.configs.append(config)
@@ -158,6 +161,7 @@ class Ctx:
                 "analysed": self.analysed,
                 "known_findings_reported": sorted(seen_known),
                 "notes": self.notes,
+                "thorough": self.thorough,
             },
             "assumptions": TRUSTED_BASE,
             "wall_s": round(wall, 2),
